@@ -9,7 +9,7 @@ CLAIMED = {
  'C01': dict(
     text='Bounded symbolic verification of chi.LogLikelihood / LogPosterior over an uninterpreted mechanistic model: for every pair (triple) of per-output time multisets within the bound and all real observations and parameters z3 decides score = sum of documented densities at the matching (output, time), pointwise layout and sum, and evaluability.',
     design='5 C01',
-    note='Trusted: z3, object-dtype NumPy, reference densities, mechanistic stub (uninterpreted Y keyed by output and time). ODE solver outside. Bounds: <=2 (3) outputs, <=2 (3) observations per output over 3 (4) distinct times.',
+    note='Trusted: z3, object-dtype NumPy, reference densities, mechanistic stub (uninterpreted Y keyed by output and time). ODE solver outside. Bounds: 1-2 outputs exhaustively (<=2 (3) observations per output over 3 (4) distinct times), 3-4 outputs on fixed grids with every triple of error models of unequal parameter counts, outputs without measurements in every position.',
     technique='symbolic execution of the real code on z3 reals with an uninterpreted solution functional + SMT validity queries over exhaustively enumerated time-grid order types'),
  'C02': dict(
     text='Bounded symbolic verification of chi.HierarchicalLogLikelihood/-Posterior: for every composition of population sub-models within the bound and all real vectors/data/covariates, z3 decides that the value equals sum_i LL_i(psi_i) + population log-density as rebuilt by a specification interpreter that reads only the published names and IDs (pooled, heterogeneous, non-centred, covariate, fixed-parameter semantics from the documentation).',
@@ -42,14 +42,14 @@ CLAIMED = {
     note='Trusted: z3, underlying population models as reference (C05), RNG stub. Bounds: n_dim <= 2, n_cov <= 2, n_ids <= 2, selections of <= 2 (3) pairs.',
     technique='symbolic execution on z3 reals + names-driven oracle + SMT validity queries over enumerated selections'),
  'C08': dict(
-    text='One inductive step from every reachable state of every reducible object (4 reduced error models, reduced population models over plain / composed / covariate models, reduced mechanistic model, LogLikelihood.fix_parameters): all (pre-state, call dictionary) transitions within the bound with symbolic values; the results at the free parameters are decided equal to the unfixed object at the substituted vector, names/counts are the free parameters in order, and the history equals a single net call (also with an evaluation between the calls).',
+    text='One inductive step from every reachable state of every reducible object (4 reduced error models, reduced population models over plain / composed / covariate models, reduced mechanistic model, LogLikelihood.fix_parameters): all (pre-state, call dictionary) transitions within the bound with symbolic values; the results at the free parameters are decided equal to the unfixed object at the substituted vector, names/counts are the free parameters in order, and the history equals a single net call (also with an evaluation between the calls, and with sensitivities left enabled from before the call: the array returned without re-enabling them must follow the free set of the moment).',
     design='5 C08',
     note='Trusted: z3 / hash-consed term identity (substitution is exact, so most obligations are decided by identity of the symbolic terms), RNG stub, the unfixed objects as reference. Outside: ProblemModellingController.fix_parameters with data, predictive models, SBML-backed models.',
     technique='symbolic execution on z3 reals; inductive step over (mask, buffer) states x call dictionaries; SMT / term-identity equality'),
  'C12': dict(
     text='Bounded symbolic verification of the five population filters and ComposedPopulationFilter: for all real measurements and simulated measurements within the bound z3 decides score = documented log-density sum with the documented empirical estimators, sensitivities = symbolic derivative in input order, invariance under permuting measured individuals, sort_times with consistently reordered simulations (all time permutations) and splitting over a composed filter; the log-sum-exp maximum branches are explored path by path.',
     design='5 C12',
-    note='Trusted: z3, canonical exp/log/sqrt rules of chisym/canon.py (validated numerically on every obligation they decide), object-dtype NumPy reductions. Outside: missing values (numpy.ma cannot carry symbolic payloads), zero-variance simulated samples, arrays larger than the bound.',
+    note='Trusted: z3, canonical exp/log/sqrt rules of chisym/canon.py (validated numerically on every obligation they decide), object-dtype NumPy reductions. Missing values (NaN-padded measurements: all-missing individual, ragged, sparse, uneven counts per time point, also under every time re-ordering) are carried by a stub of numpy.ma for object payloads (chisym/facade_ma.py) that is cross-checked against the real numpy.ma by the differential float run of every case. Outside: zero-variance simulated samples, arrays larger than the bound.',
     technique='symbolic execution on z3 reals with path exploration of np.max + canonical normal form / SMT validity queries; symbolic differentiation as gradient oracle'),
  'C13': dict(
     text='Bounded symbolic verification of chi.PopulationFilterLogPosterior over the uninterpreted mechanistic model and prior: for every population composition within the bound, fixed/free sigma, additive/log-scale noise and unsorted time vectors, z3 decides that value minus (log-prior + population log-density + filter log-likelihood of Y(psi_s) + sigma*eps at the sorted times - sum eps^2/2), rebuilt from the published names and IDs only, has zero derivative in every entry, and that evaluateS1 returns the symbolic derivative of the value entry by entry.',
@@ -57,22 +57,27 @@ CLAIMED = {
     note='Trusted: z3, canonical stage, the population filters as reference (C12), documented naming conventions. Bounds: 2 simulated individuals (4 for the mixture filter), <=2 observables, <=2 times, compositions of <=2 (3) sub-models. Known finding: covariate model around a pooled dimension.',
     technique='symbolic execution on z3 reals + names-driven specification interpreter + symbolic differentiation + SMT validity queries'),
  'C09': dict(
-    text='Bounded symbolic verification of the binding chi owns between the flat parameter vector and the ODE solver: over a stub of myokit.Simulation that returns the uninterpreted solution functional of exactly what it was handed, simulate(p, t) and the sensitivity array are decided equal, entry by entry, to the functional (and its declared partials) with p_i bound to the variable behind the i-th published name, for generated SBML models with every declaration order of 1..3 states, constants, intermediates, derived constants, output selections, renamings, copies and reduced models, and for the 4 library models whose right-hand sides are also decided equal to the documented equations.',
+    text='Bounded symbolic verification of the binding chi owns between the flat parameter vector and the ODE solver: over a stub of myokit.Simulation that returns the uninterpreted solution functional of exactly what it was handed, simulate(p, t) and the sensitivity array are decided equal, entry by entry, to the functional (and its declared partials) with p_i bound to the variable behind the i-th published name, for generated SBML models with every declaration order of 1..3 states, constants, intermediates, derived constants, output selections, renamings, copies and reduced models (incl. swapping the fixed parameter / releasing all with sensitivities left on), and for the 4 library models whose right-hand sides are also decided equal to the documented equations.',
     design='5 C09',
     note='Trusted: real myokit model classes / SBML importer; the Simulation stub contract (result depends exactly on the state vector in solver order, the named constants, the protocol and the sensitivity request); z3. The integrator (sundials) is absent in this sandbox and outside the claim.',
     technique='symbolic execution over an uninterpreted-solver stub + term/SMT equality over enumerated generated SBML programs; expression-tree translation for library equations'),
  'C10': dict(
-    text='Bounded symbolic verification of dosing: set_dosing_regimen with symbolic dose/start/duration/period and every num hands the simulator the documented event (level*duration = dose); the model surgery of set_administration is decided on the myokit expression trees (dose rate on the dosed amount, first-order depot) for library and generated models; cumulative input between infusions = sum of scheduled doses under myokit event semantics; PredictiveModel.get_dosing_regimen on symbolic start, period, duration, level and final_time lists exactly the events applied up to final_time (floor forked, <= 4 doses).',
+    text='Bounded symbolic verification of dosing: set_dosing_regimen with symbolic dose/start/duration/period and every num hands the simulator the documented event (level*duration = dose); the model surgery of set_administration is decided on the myokit expression trees (dose rate on the dosed amount, first-order depot) for library and generated models; cumulative input between infusions = sum of scheduled doses under myokit event semantics; PredictiveModel.get_dosing_regimen on symbolic start, period, duration, level and final_time lists exactly the events applied up to final_time (floor forked, <= 4 doses); regimens derived from a dataset hold exactly each individual\'s dose rows (start = time, rate*duration = amount, 0.01 bolus when the duration is missing) for every pair (triple) of row kinds, row orders and ID types.',
     design='5 C10',
-    note='Trusted: real myokit model/expression classes, protocol stub = documented myokit.Protocol event semantics, z3. Outside: the integrator; dataset-derived regimens (pandas).',
+    note='Trusted: real myokit model/expression classes, protocol stub = documented myokit.Protocol event semantics, z3. Dataset-derived regimens: ProblemModellingController.set_data / get_dosing_regimens on pandas frames with symbolic dose amounts, times and durations (pd.to_numeric facade). Outside: the integrator.',
     technique='symbolic execution over the myokit stub with symbolic protocol fields + SMT decisions; expression-tree translation of the modified right-hand sides'),
  'C11': dict(
-    text='Bounded exhaustive histories with symbolic data: every sequence of <= 2 (3) configuration calls (administration direct/indirect, two regimens with symbolic doses, output selections, renamings, sensitivities on/off, copy) on a PKPDModel over the myokit stub; the observables (names, counts, outputs, reported regimen, and simulate(p,t) as a term containing the protocol on the live simulator and the sensitivity request) are decided equal to a fresh model with only the net configuration; reported regimen = protocol on the live simulator; copies equal the original at copy time and stay unaffected.',
+    text='Bounded exhaustive histories with symbolic data: every sequence of <= 2 (3) configuration calls (administration direct/indirect, two regimens with symbolic doses, output selections, renamings, sensitivities on/off, copy) on a PKPDModel over the myokit stub; the observables (names, counts, outputs, reported regimen, and simulate(p,t) as a term containing the protocol on the live simulator and the sensitivity request) are decided equal to a fresh model with only the net configuration; reported regimen = protocol on the live simulator; copies equal the original at copy time and stay unaffected; the same for histories of fix / re-fix / release / swap-in-one-call / release-all / sensitivities / copy on a ReducedMechanisticModel over the dosed model.',
     design='5 C11',
     note='Trusted: myokit stub contract; the reference applies the same chi calls on a fresh model in canonical order (administration, regimen, outputs, renaming, sensitivities); documented resets (set_outputs / set_administration reset sensitivities; an output rename lives with the selected output). Known finding: renames lost when an administration rebuilds the name tables.',
     technique='exhaustive bounded call histories executed symbolically over an uninterpreted-solver stub; term/SMT equality of observables'),
+ 'C14': dict(
+    text='Bounded symbolic verification of chi.ProblemModellingController: set_data (type cleaning, observable / covariate maps, row selection, regimen and covariate extraction), set_population_model, fix_parameters, set_log_prior and get_log_posterior are executed on pandas frames with concrete structure (IDs and their type, observables, missing cells, row order, unrelated rows and columns) and symbolic payload (values, dose amounts, durations, covariates); value, IDs, gradient of the returned posterior at a symbolic vector are decided equal to the posterior assembled by hand from the ground truth (one LogLikelihood per individual over a model copy with that individual\'s own protocol, measurements and times; population model with that individual\'s covariates in ID order), for 7 renderings of every dataset.',
+    design='5 C14',
+    note='Trusted: real pandas on object columns; pd.to_numeric facade (passes symbolic columns through after checking the remaining cells with the real to_numeric); myokit stub (the solution symbol is keyed by the protocol events, so a regimen on the wrong individual is a different term); chi likelihood / posterior classes as the hand-assembly vocabulary (decided by C01-C03). Bounds: 1-3 individuals, 1-2 outputs, 0-3 measurements per output, <= 2 dose rows per individual, 7 population models, <= 2 covariates; measurement and dose times are concrete.',
+    technique='symbolic execution of the real code on pandas object columns + term/SMT equality against a hand-assembled posterior, over enumerated dataset renderings'),
  'C19': dict(
-    text='Bounded exhaustive evaluation sequences with symbolic points (sequential clause): all sequences of 2 (3) evaluations (value, pointwise, value+sensitivities at two points) on one object or interleaved over two sibling objects built from the same user models, for 9 kinds of evaluable objects incl. dosed PKPD likelihoods over the myokit stub and objects with fixed parameters; each result term is decided equal to the same single evaluation on a fresh object and consistent across operations (S1 score = value, sum pointwise = value), inputs are compared cell by cell with a snapshot, and mutations of the user models after construction leave the derived objects unchanged.',
+    text='Bounded exhaustive evaluation sequences with symbolic points (sequential clause): all sequences of 2 (3) evaluations (value, pointwise, value+sensitivities at two points) on one object or interleaved over two sibling objects built from the same user models, for 9 kinds of evaluable objects incl. dosed PKPD likelihoods over the myokit stub and objects with fixed parameters; each result term is decided equal to the same single evaluation on a fresh object and consistent across operations (S1 score = value, sum pointwise = value), inputs are compared cell by cell with a snapshot, mutations of the user models after construction leave the derived objects unchanged, and evaluations before a reconfiguration (swap of the fixed mechanistic parameter) leave nothing behind that shows afterwards.',
     design='5 C19',
     note='Trusted: myokit stub (protocol and sensitivity request are part of the solution term, so a rebuilt simulator that lost them is visible), term identity / z3. Outside: forked-worker evaluation (pints.ParallelEvaluator) and data frames.',
     technique='exhaustive bounded evaluation sequences executed symbolically; term/SMT equality against fresh-object evaluations'),
@@ -99,7 +104,6 @@ CLAIMED = {
 }
 
 NOT_APPLICABLE = {
- 'C14': 'solver-based checking cannot reach it here: dataset row routing runs inside pandas compiled code (astype/to_numeric/masks) which realises every symbolic value; see DESIGN.md section 6',
  'C20': 'solver-based checking cannot reach it here: trace contents come from pandas masking / Series.rank and plotly; an SMT model would verify a model of pandas, not chi; see DESIGN.md section 6',
 }
 PENDING = 'check not built yet in this round (planned, see DESIGN.md section 5)'
